@@ -285,7 +285,7 @@ pub fn run(ctx: &Ctx, rec: &mut Recorder) -> Result<(), String> {
     let dir = ctx.out.join(format!("c22-files-{}", ctx.shard));
     std::fs::create_dir_all(&dir).map_err(|e| e.to_string())?;
     std::fs::write(dir.join("in.pdf"), b"%PDF-1.4\n%%EOF\n").map_err(|e| e.to_string())?;
-    let nruns = ctx.qt(24_000u64, 1_200_000u64);
+    let nruns = ctx.qt(24_000u64, 240_000u64);
     let mut ignore_tids: HashSet<u64> = HashSet::new();
     let mut hung_runs = 0u32;
     let mut first_fail_classes: HashSet<String> = HashSet::new();
